@@ -513,6 +513,10 @@ func genScenario(r *rng, cold bool) *Scenario {
 		}
 	}
 	sc.ColdFirst = cold
+	var generic []string
+	if r.chance(0.5) {
+		generic = []string{genericSrcs[r.intn(len(genericSrcs))], genericSrcs[r.intn(len(genericSrcs))]}
+	}
 	for t := 0; t < k; t++ {
 		var ops []Op
 		n := 1 + r.intn(6)
@@ -528,6 +532,10 @@ func genScenario(r *rng, cold bool) *Scenario {
 			case c < 5 && len(sc.Shared) > 0: // F3: compile on a shared (warmed) engine
 				e := r.intn(len(sc.Shared))
 				p := pickProg(r, sc.Shared[e].UserFuns)
+				if len(generic) > 0 && r.chance(0.4) {
+					// several tasks compile the SAME generic source on the shared engine under different typings
+					p = Prog{generic[r.intn(len(generic))], genericEnvs[r.intn(4)], false, true}
+				}
 				ops = append(ops, Op{K: "compile", E: e, ES: true, Prog: &p})
 				myCalls = append(myCalls, i)
 				callEnv[i] = p.Env
